@@ -18,7 +18,7 @@ RULE = (
 )
 ASSUMPTIONS = ["reference |<a|b>|^2 from dense vectors (n<=8), values are 0 or 2^-k, tolerance 1e-9",
                "n >= 9: reference overlap by projecting one generating set onto the other in the Pauli algebra (vf/ref/pauli.py, self-tested against dense vectors)"]
-REQUIRED_CLASSES = {"pairs": ["F=1", "F=0_sign_only", "F=0_other", "0<F<1", "non_graph_form", "negative_sign", "has_Y"],
+REQUIRED_CLASSES = {"pairs": ["F=1", "F=0_sign_only", "F=0_other", "0<F<1", "non_graph_form", "negative_sign", "has_Y", "edited_in_place_then_compared"],
                     "large": ["F=1", "F=0_sign_only", "0<F<1", "non_graph_form", "negative_sign", "has_Y"]}
 
 
@@ -103,6 +103,24 @@ def check_pair(case, sub="pairs"):
         raise Violation(sub, "canonical-form", "canonical_form", icls, "canonical forms equal=%s but F=%r" % (ca == cb, F))
     if not rp.denotes(ca, va, n):
         raise Violation(sub, "canonical-form", "canonical_form", icls, "canonical form denotes another state")
+    # a tableau object that has been compared is edited in place by a Pauli gate (only signs change) and compared again
+    import graphiq.backends.stabilizer.functions.transformation as tr_
+
+    qd = len(a.get("word", [])) % n
+    gname = ["X", "Z", "Y"][len(b.get("word", [])) % 3]
+    ta_edit = guarded(sub, icls, {"X": tr_.x_gate, "Z": tr_.z_gate, "Y": tr_.y_gate}[gname], ta, qd)
+    va2 = sv.apply1(va, n, qd, sv.GATES[gname])
+    F2 = sv.overlap2(va2, vb)
+    f2 = guarded(sub, icls, sfm.fidelity, ta_edit, tb)
+    if abs(f2 - F2) > 1e-9:
+        raise Violation(sub, "fidelity-value", "metric.fidelity", "edited_in_place",
+                        "after a Pauli %s applied in place to an operand compared before: fidelity=%r, |<a|b>|^2=%r" % (gname, float(f2), F2))
+    f2s = guarded(sub, icls, sfm.fidelity, ta_edit, ta_edit.copy())
+    if abs(f2s - 1) > 1e-9:
+        raise Violation(sub, "fidelity-value", "metric.fidelity", "edited_in_place", "F(t, copy of t) = %r after an in-place Pauli" % float(f2s))
+    # undo (Paulis are involutions up to phase) so that the clauses below see the original state
+    ta = guarded(sub, icls, {"X": tr_.x_gate, "Z": tr_.z_gate, "Y": tr_.y_gate}[gname], ta_edit, qd)
+    cl.append("edited_in_place_then_compared")
     # metric object on stabilizer representations
     inf = guarded(sub, icls, lambda: Infidelity(QuantumState(ta.copy(), rep_type="s")).evaluate(
         QuantumState(tb.copy(), rep_type="s"), None))
